@@ -357,8 +357,38 @@ func C37(e *simkern.Env) {
 				dispatched bool
 				respErr    bool
 			}
+			// fault: the caller goes away (its request context ends) while a turn
+			// of its request is running; planned per (call, turn) so that the run
+			// with the panicking hook and the run with the silent one see the same
+			hangOn := tp.Bool(1, 2)
+			hangPlan := map[[2]int64]bool{}
+			var hangUp context.CancelFunc
+			var turnCount map[int64]int64
+			if hangOn {
+				hx.RequestContext = func(r *http.Request) context.Context {
+					ctx, cancel := context.WithCancel(r.Context())
+					hangUp = cancel
+					return ctx
+				}
+				hx.TurnDone = func(nonce int64) {
+					k := turnCount[nonce]
+					turnCount[nonce]++
+					key := [2]int64{nonce, k}
+					v, ok := hangPlan[key]
+					if !ok {
+						v = tp.Bool(1, 6)
+						hangPlan[key] = v
+					}
+					if v && hangUp != nil {
+						sim.Fault("caller-gone-during-turn")
+						hangUp()
+					}
+				}
+				defer func() { hx.RequestContext, hx.TurnDone = nil, nil }()
+			}
 			runHTTP := func(h *planHook, name string) ([]*pipew.OpResult, []reqObs) {
 				hx.Rec.Reset()
+				turnCount = map[int64]int64{}
 				cl := httpw.NewCluster(httpw.Config{Key: []byte("0123456789abcdef0123456789abcdef"), CacheSizes: []int{-1}, NoTwin: true, BatchLimit: batchLimit,
 					Setup: func(i int, s *vgirpc.Server, hs *vgirpc.HttpServer) { s.SetDispatchHook(h) }})
 				results := make([]*pipew.OpResult, len(ops))
@@ -436,11 +466,11 @@ func init() {
 	Registry["C37"] = &Info{
 		Run:   C37,
 		Level: "exploration",
-		Rule:  "each run draws a call history (2-7 calls: unary, producer/exchange/dynamic streams with failing turns, init failures, cancels, malformed and unknown-method requests) and a hook panic plan (rate 0, 3/10 or 6/10 per callback, separately for start and end); the history runs on a simulated pipe and over HTTP (every init/continuation/cancel is its own dispatch; producer batch limit 0-2), each once with the planned hook and once with a silent recording hook; per dispatch the hook events are judged and the client-visible responses of the two runs compared; in two runs of three the pipe history runs a third time with the peer hanging up at a drawn byte of the server's output, after which every start must have had exactly one end (the client may have 0-3 further requests on the wire already; the hang-up run is repeated with the panicking hook and must dispatch the same number of calls); distinct = schedule fingerprint",
+		Rule:  "each run draws a call history (2-7 calls: unary, producer/exchange/dynamic streams with failing turns, init failures, cancels, malformed and unknown-method requests) and a hook panic plan (rate 0, 3/10 or 6/10 per callback, separately for start and end); the history runs on a simulated pipe and over HTTP (every init/continuation/cancel is its own dispatch; producer batch limit 0-2), each once with the planned hook and once with a silent recording hook (in half of the runs the caller of an HTTP request goes away — its context ends — at the end of a planned turn, the same turns in both runs); per dispatch the hook events are judged and the client-visible responses of the two runs compared; in two runs of three the pipe history runs a third time with the peer hanging up at a drawn byte of the server's output, after which every start must have had exactly one end (the client may have 0-3 further requests on the wire already; the hang-up run is repeated with the panicking hook and must dispatch the same number of calls); distinct = schedule fingerprint",
 		Real:  []string{"vgirpc serveOne hook bracket, HttpServer.startDispatchHook and its deferred end on unary / stream init / exchange / producer continuation / cancel paths"},
 		Stub:  []string{"transports", "protocol client", "recording / panicking DispatchHook", "scripted handlers"},
 		Quick: 700, Thorough: 60000,
-		FaultKinds: []string{"hook-panic-in-start", "hook-panic-in-end", "malformed-request", "client-cancel", "peer-hangup-mid-response", "external-input-pointer", "fetch-error", "fetch-status", "fetch-truncated"},
+		FaultKinds: []string{"hook-panic-in-start", "hook-panic-in-end", "malformed-request", "client-cancel", "peer-hangup-mid-response", "external-input-pointer", "fetch-error", "fetch-status", "fetch-truncated", "caller-gone-during-turn"},
 		Assumptions: []string{"calls refused before dispatch (malformed, unknown method, version gate, unresolvable tokens) carry no demand other than 'no end without a start'", "when start panicked the statement makes no demand on end"},
 	}
 }
